@@ -170,6 +170,91 @@ _Bool Request__match_recv(void* a, void* b, struct CommImpl* unused)
                       (R_UNCHANGED && g_r.flags_ == OLD(g_r.flags_) && g_s.flags_ == OLD(g_s.flags_)))
     /*@ recv_no_match_changes_nothing */;
 
+/* ================= mailbox choice of Request::start (eager / rendez-vous threshold) ===================================
+ * Every process has a "small" and a "large" mailbox. With threshold T = smpi/async-small-thresh, a message of `size` bytes
+ * is an EAGER message iff it is an RMA message or (T != 0 and size < T)  -- the rule of the send side and of the
+ * documentation, stated ONCE and used for both the receive and the send. A request that finds no counterpart already
+ * posted must post itself in its home mailbox: small for eager messages (large for synchronous sends), large otherwise;
+ * it leaves its home mailbox only to join a counterpart it has found there. Hence a receive and a matching send of
+ * the same size always meet, whichever is posted first, for every size (including size == T) and every T (including 0).
+ * Request::start is translated up to the simcall that hands the request to the kernel (units.json stop_at_call); the
+ * mailbox given to the CommIrecvSimcall / CommIsendSimcall observer is what the contract speaks about.               */
+struct Mailbox g_mb_small, g_mb_large;
+struct MailboxImpl g_mbi_small, g_mbi_large;
+struct ActorExt g_proc;
+struct Actor g_actor;
+struct Host g_host;
+struct ActivityImpl g_pending;    /* what iprobe returns when a counterpart is already posted */
+int g_T;                          /* smpi/async-small-thresh */
+int g_D;                          /* smpi/send-is-detached-thresh */
+_Bool g_in_small, g_in_large;     /* a matching counterpart is already posted in the small / large mailbox */
+struct MailboxImpl* g_posted;     /* ghost: mailbox handed to the simcall observer */
+int g_posts;                      /* ghost: number of observers built */
+
+#define IS_EAGER(size, flags) ((((flags) & VFC_MPI_REQ_RMA) != 0) || (g_T != 0 && (int)(size) < g_T))
+#define HOME_IS_SMALL(size, flags, is_send) (IS_EAGER(size, flags) && !((is_send) && (((flags) & VFC_MPI_REQ_SSEND) != 0)))
+
+/* Assumed callees of Request::start, given as small C models (bodies) rather than contracts: there are about thirty call
+ * sites and each contract replacement costs the instrumentation a few dozen objects. All of them are listed in check.json. */
+double nondet_double(void);
+unsigned int nondet_uint(void);
+_Bool nondet_bool(void);
+int smpi_cfg_async_small_thresh(void) { return g_T; }
+int smpi_cfg_detached_send_thresh(void) { return g_D; }
+struct Actor* by_pid(long pid) { return &g_actor; }
+struct Actor* Actor__self(void) { return &g_actor; }
+struct ActorExt* smpi_process_remote(struct Actor* a) { return &g_proc; }
+struct Mailbox* ActorExt__mailbox(struct ActorExt* self) { __CPROVER_assert(self == &g_proc, "mailbox of the destination process"); return &g_mb_large; }
+struct Mailbox* ActorExt__mailbox_small(struct ActorExt* self) { __CPROVER_assert(self == &g_proc, "small mailbox of the destination process"); return &g_mb_small; }
+_Bool ActorExt__replaying(struct ActorExt* self) { return nondet_bool(); }
+struct Host* Actor__get_host(struct Actor* self) { return &g_host; }
+struct Host* Extendable_Host__extension(struct Extendable_Host* self) { return &g_host; }
+double Host__oisend(struct Host* self, unsigned long size, struct Host* a, struct Host* b) { return nondet_double(); }
+double Host__osend(struct Host* self, unsigned long size, struct Host* a, struct Host* b) { return nondet_double(); }
+void sleep_for(double d) {}
+/* iprobe: is a matching counterpart already posted in this mailbox? (the match functions are contracted above) */
+struct ActivityImpl* Mailbox__iprobe(struct Mailbox* self, int kind, struct vf_fn* match, void* data)
+{
+  __CPROVER_assert((self == &g_mb_small || self == &g_mb_large) && data == &g_s, "iprobe on one of the two mailboxes for this request");
+  return (self == &g_mb_small ? g_in_small : g_in_large) ? &g_pending : NULL;
+}
+struct CommIrecvSimcall CommIrecvSimcall__make(struct MailboxImpl* mbox) { struct CommIrecvSimcall o; g_posted = mbox; g_posts++; return o; }
+struct CommIsendSimcall CommIsendSimcall__make(struct MailboxImpl* mbox) { struct CommIsendSimcall o; g_posted = mbox; g_posts++; return o; }
+void Request__init_buffer(struct Request* self, int count) {}
+void Request__print_request(struct Request* self, char* msg) {}
+void Request__ref(struct Request* self) {}
+void TRACE_smpi_send(long a, long b, long c, int tag, size_t size) {}
+_Bool TRACE_smpi_view_internals(void) { return nondet_bool(); }
+struct EngineImpl* get_instance(void) { return NULL; }
+void EngineImpl__display_all_actor_status(struct EngineImpl* self) {}
+unsigned int Comm__get_sent_messages_count(struct Comm* self, int src, int dst, int tag) { return nondet_uint(); }
+void Comm__increment_sent_messages_count(struct Comm* self, int src, int dst, int tag) {}
+void* xbt_malloc(size_t n) { __CPROVER_assert(0, "not reached: the harness sends from a NULL buffer"); return NULL; }
+
+#define START_PRE                                                                                                      \
+  (self == &g_s && vf_exc == 0 && g_s.action_ == NULL && g_s.size_ <= 2147483647UL && g_s.real_size_ <= 2147483647UL && \
+   g_ts.flags_ >= 0 && g_T >= 0 && g_posts == 0 &&      \
+   g_mb_small.pimpl_ == &g_mbi_small && g_mb_large.pimpl_ == &g_mbi_large && g_s.type_ == &g_ts && g_s.buf_ == NULL && g_s.old_buf_ == NULL && \
+   0 <= g_ir && g_ir < 3 && g_r.comm_ == COMM_AT(g_ir) && g_s.comm_ == COMM_AT(g_ir) && g_s.message_id_.d == g_ids &&  \
+   g_s.message_id_.h == 0 && g_s.message_id_.n < MQ && g_s.message_id_.cap == MQ + 1 &&                                \
+   (g_s.real_size_ == 0 || (g_s.flags_ & VFC_MPI_REQ_FINISHED) == 0 || g_ts.size_ != 0))
+#define IS_RECV ((__CPROVER_old(g_s.flags_) & VFC_MPI_REQ_RECV) != 0)
+#define SZ0 __CPROVER_old(g_s.size_)
+#define FL0 __CPROVER_old(g_s.flags_)
+void Request__start(struct Request* self)
+    __CPROVER_requires(START_PRE)
+    __CPROVER_assigns(g_s.flags_, g_s.real_size_, g_s.buf_, g_s.detached_, g_s.message_id_.n, __CPROVER_object_whole(g_ids),
+                      g_posted, g_posts)
+    __CPROVER_ensures(vf_exc == 0 && g_posts == 1 && (g_posted == &g_mbi_small || g_posted == &g_mbi_large))
+    /*@ start_posts_exactly_once_in_one_of_the_two_mailboxes */
+    __CPROVER_ensures(g_in_small || g_in_large ||
+                      g_posted == (HOME_IS_SMALL(SZ0, FL0, !IS_RECV) ? &g_mbi_small : &g_mbi_large))
+    /*@ start_without_counterpart_posts_in_home_mailbox_of_the_size_class */
+    __CPROVER_ensures(g_posted == (HOME_IS_SMALL(SZ0, FL0, !IS_RECV) ? &g_mbi_small : &g_mbi_large) ||
+                      (g_posted == &g_mbi_small ? g_in_small : g_in_large))
+    /*@ start_leaves_home_mailbox_only_to_join_a_posted_counterpart */
+    __CPROVER_ensures((g_s.flags_ & VFC_MPI_REQ_PROBE) == (FL0 & VFC_MPI_REQ_PROBE)) /*@ start_restores_probe_flag */;
+
 #include "gen.c"
 
 /* ---------------- harnesses ------------------------------------------------------------------------------------- */
@@ -225,6 +310,26 @@ void harness(void)
   setup();
   g_req_is_sender = 1;
   Request__match_recv(&g_r, &g_s, NULL);
+  VF_CANARY_POINT;
+}
+#endif
+#ifdef H_start
+void harness(void)
+{
+  setup();
+  g_s.comm_ = g_r.comm_;
+  g_s.action_ = NULL;
+  g_s.buf_ = NULL;
+  g_s.old_buf_ = NULL; /* no user buffer: the copy of detached send buffers is outside this contract */
+  g_mb_small.pimpl_ = &g_mbi_small;
+  g_mb_large.pimpl_ = &g_mbi_large;
+  g_in_small = nondet_bool();
+  g_in_large = nondet_bool();
+  g_posts = 0;
+  size_t n = nondet_size();
+  __CPROVER_assume(n < MQ);
+  g_s.message_id_.n = n;
+  Request__start(&g_s);
   VF_CANARY_POINT;
 }
 #endif
